@@ -65,6 +65,9 @@ impl SimDisk {
             lag_ms: Default::default(),
         }
     }
+    pub fn lag_ms(&self) -> u64 {
+        self.lag_ms.load(std::sync::atomic::Ordering::Relaxed)
+    }
     pub fn set_lag_ms(&self, ms: u64) {
         self.lag_ms.store(ms, std::sync::atomic::Ordering::Relaxed);
     }
